@@ -447,6 +447,73 @@ fn long_case(rng: &mut Rng, n: usize) -> (G, Vec<u8>, u8) {
     (g, body, nsym)
 }
 
+// ---------------------------------------------------------------------------------------------
+// Graphemes (C10's last clause): `&Graphemes` must yield exactly the extended grapheme clusters of
+// the string. A pure replica (no source behind it, so no fault space): kept small, 1 case in 50.
+
+const GR_PIECES: [&str; 24] = [
+    "a", "b", "0", " ", "e\u{301}", "\u{1F468}\u{200D}\u{1F469}\u{200D}\u{1F467}", "\u{1F1E9}\u{1F1EA}", "\u{1F1FA}", "\r\n", "\r", "\n", "\u{1100}\u{1161}\u{11A8}", "\u{AC00}",
+    "\u{0915}\u{094D}\u{0937}", "\u{200D}", "\u{FE0F}", "\u{1F44D}\u{1F3FD}", "\u{0E01}\u{0E33}", "\u{0301}", "z\u{0308}\u{0301}", "\u{1F3F4}\u{E0067}\u{E0062}\u{E007F}", "\u{00E9}", "\u{65E5}", "\u{0600}a",
+];
+
+pub fn gen_grapheme_text(rng: &mut Rng) -> String {
+    let n = rng.range(0, 14);
+    let mut s = String::new();
+    for _ in 0..n {
+        s.push_str(GR_PIECES[rng.usize(GR_PIECES.len())]);
+    }
+    s
+}
+
+/// (cluster text, byte start, byte end) as chumsky's `&Graphemes` input yields them, for three
+/// grammar shapes (plain walk; walk, fail at the very end, rewind, walk again; one at a time with
+/// a look-ahead and a slice), and acceptance. Panics are outcomes.
+pub fn graphemes_via_chumsky(text: &str, shape: u8) -> Result<Vec<(String, usize, usize)>, String> {
+    use chumsky::prelude::*;
+    use chumsky::text::unicode::{Grapheme, Graphemes};
+    type E<'a> = extra::Err<Rich<'a, &'a Grapheme>>;
+    let r = catch_unwind(AssertUnwindSafe(|| {
+        let inp = Graphemes::new(text);
+        let one = || any::<&Graphemes, E>().map_with(|g: &Grapheme, e| (g.as_str().to_string(), e.span().start, e.span().end));
+        let res = match shape {
+            0 => one().repeated().collect::<Vec<_>>().parse(inp).into_result(),
+            1 => {
+                // read everything, fail at the very end on a token that is not there, rewind to 0, read again
+                let sentinel = Grapheme::digit_zero();
+                let first = any::<&Graphemes, E>().filter(|g: &&Grapheme| g.as_str() != "0").repeated().then(just(sentinel)).then(end()).to(Vec::new());
+                first.or(one().repeated().collect::<Vec<_>>()).parse(inp).into_result()
+            }
+            _ => {
+                // per cluster: look ahead (rewind), then take it as a slice and compare with the token
+                let item = any::<&Graphemes, E>().rewind().ignore_then(any::<&Graphemes, E>().to_slice().map_with(|sl: &Graphemes, e| (sl.as_str().to_string(), e.span().start, e.span().end)));
+                item.repeated().collect::<Vec<_>>().parse(inp).into_result()
+            }
+        };
+        res.map_err(|e| format!("rejected: {} error(s)", e.len()))
+    }));
+    match r {
+        Ok(x) => x,
+        Err(_) => Err(format!("panicked: {}", hook::take_panic())),
+    }
+}
+
+pub fn graphemes_reference(text: &str) -> Vec<(String, usize, usize)> {
+    use unicode_segmentation::UnicodeSegmentation;
+    text.grapheme_indices(true).map(|(i, g)| (g.to_string(), i, i + g.len())).collect()
+}
+
+pub fn graphemes_check(text: &str, shape: u8) -> Option<(String, String)> {
+    let want = graphemes_reference(text);
+    // shape 1's first alternative legitimately succeeds when the text ends in a "0" cluster preceded by no other "0"
+    let got = graphemes_via_chumsky(text, shape);
+    let exp: Result<Vec<(String, usize, usize)>, String> = if shape == 1 && want.last().map(|l| l.0 == "0").unwrap_or(false) && want.iter().filter(|c| c.0 == "0").count() == 1 { Ok(vec![]) } else { Ok(want) };
+    if got != exp {
+        Some((format!("{:?}", exp), format!("{:?}", got)))
+    } else {
+        None
+    }
+}
+
 pub struct SrcSim;
 
 const REF_TICK_CAP: u64 = 400_000;
@@ -741,6 +808,38 @@ impl Engine for SrcSim {
             let (g, syms, _nsym) = long_case(&mut rng, n);
             acc.inc("cases.long_input");
             let d = self.run_input(seed, idx, &mut rng, &g, &syms, false, true, acc);
+            acc.distinct("cases", d);
+            return d;
+        }
+        if idx % 50 == 7 {
+            acc.inc("cases.graphemes");
+            let mut d = 77u64;
+            for _ in 0..6 {
+                let text = gen_grapheme_text(&mut rng);
+                for shape in 0..3u8 {
+                    acc.inc("evaluations.replica_runs");
+                    acc.inc("replica_runs.Graphemes");
+                    d = fold(d, crate::prng::fold_bytes(shape as u64, text.as_bytes()));
+                    let nclusters = graphemes_reference(&text).len();
+                    acc.add("graphemes.clusters_compared", nclusters as u64);
+                    if nclusters >= 2 && graphemes_reference(&text).iter().any(|c| c.0.chars().count() > 1) {
+                        acc.distinct("nontrivial_cases", fold(d, 0x67));
+                    }
+                    if let Some((exp, obs)) = graphemes_check(&text, shape) {
+                        let rp = json!({"engine": "srcsim", "property": "C10", "seed": seed, "case": idx, "graphemes": {"text": text, "shape": shape}, "class": "graphemes", "expected": exp, "observed": obs});
+                        acc.violations.push(Violation {
+                            property: "C10".into(),
+                            engine: "srcsim".into(),
+                            seed,
+                            case: idx,
+                            class: "graphemes".into(),
+                            summary: format!("kind=Graphemes shape={} text={:?} expected={} observed={}", shape, text, exp, obs),
+                            replay: rp,
+                        });
+                        return d;
+                    }
+                }
+            }
             acc.distinct("cases", d);
             return d;
         }
